@@ -156,16 +156,18 @@ func pmRun(c pmCase, prop string) (fail *vlib.Failure, rs pmRunStats) {
 		return nil
 	}
 	if prop == "C03" {
-		m := pmStatsRe.FindStringSubmatch(env.log.String())
-		if m == nil {
-			return vlib.Failf("no page stats line on the kernel log after a successful Init: %q", clipStr(env.log.String())), rs
-		}
-		free, _ := strconv.ParseUint(m[1], 10, 64)
-		total, _ := strconv.ParseUint(m[2], 10, 64)
-		reserved, _ := strconv.ParseUint(m[3], 10, 64)
-		if total != uint64(totalWhole) || reserved != uint64(kernelInPools+earlyInPools) || free != uint64(len(usable)) {
-			return vlib.Failf("reported stats free=%d total=%d reserved=%d; model: free=%d total=%d reserved=%d (kernel %d + early %d)",
-				free, total, reserved, len(usable), totalWhole, kernelInPools+earlyInPools, kernelInPools, earlyInPools), rs
+		// the totals as reported on the kernel log (when the line has the shipped wording;
+		// a re-worded line is not an alarm - the counters are also checked directly below)
+		if m := pmStatsRe.FindStringSubmatch(env.log.String()); m != nil {
+			free, _ := strconv.ParseUint(m[1], 10, 64)
+			total, _ := strconv.ParseUint(m[2], 10, 64)
+			reserved, _ := strconv.ParseUint(m[3], 10, 64)
+			if total != uint64(totalWhole) || reserved != uint64(kernelInPools+earlyInPools) || free != uint64(len(usable)) {
+				return vlib.Failf("reported stats free=%d total=%d reserved=%d; model: free=%d total=%d reserved=%d (kernel %d + early %d)",
+					free, total, reserved, len(usable), totalWhole, kernelInPools+earlyInPools, kernelInPools, earlyInPools), rs
+			}
+		} else {
+			vlib.For("C03").Label("stats-line-not-recognised(skipped)")
 		}
 		if f := checkAccounting("after Init"); f != nil {
 			return f, rs
